@@ -47,7 +47,9 @@
 (***************************************************************************)
 EXTENDS Naturals, Sequences, FiniteSets, TLC
 
-VARIABLES txt,    \* the input, a sequence of symbols (never changes)
+VARIABLES src,    \* the source AS GIVEN to Mako, a sequence of symbols (never changes)
+          route,  \* the pre-lexing route: the preprocessor operations applied to src before lexing (<<>>: none)
+          txt,    \* the text that is LEXED = Transform(route, src); Accounting speaks about this text
           pos,    \* cursor: next symbol to look at (1-based)
           line,   \* line number of pos
           nodes,  \* parse tree so far, flat, in NORMAL FORM (adjacent text merged, empty text dropped)
@@ -58,7 +60,7 @@ VARIABLES txt,    \* the input, a sequence of symbols (never changes)
           ctl,    \* stack of open control keywords [kw, p, l]
           ostk,   \* output frames [k, buf]; ostk[1].buf is the rendered output
           feat    \* unspecified / noteworthy features met (for signatures only)
-lvars == <<txt, pos, line, nodes, segs, err, fin, tags, ctl, ostk, feat>>
+lvars == <<src, route, txt, pos, line, nodes, segs, err, fin, tags, ctl, ostk, feat>>
 
 N == Len(txt)
 At(i) == IF i >= 1 /\ i <= N THEN txt[i] ELSE "EOF"
@@ -82,8 +84,9 @@ SkipBlanks(i) == Skip(i, Blank)
 Starts(i, pat) == \A k \in 1..Len(pat) : At(i + k - 1) = pat[k]
 RECURSIVE Find(_, _)
 Find(i, pat) == IF i > N THEN 0 ELSE IF Starts(i, pat) THEN i ELSE Find(i + 1, pat)
-CountNl(i, j) == Cardinality({k \in i..j : At(k) = "nl"})
-LineStart(p) == p = 1 \/ At(p - 1) = "nl"
+\* MAGIC: a whole `## -*- coding: ... -*-` line with its newline (only ever the first symbol of a source)
+CountNl(i, j) == Cardinality({k \in i..j : At(k) \in {"nl", "MAGIC"}})
+LineStart(p) == p = 1 \/ At(p - 1) \in {"nl", "MAGIC"}
 
 \* line terminators (LF, or CR LF spelled as two symbols) and backslash-newline
 IsTerm(i) == At(i) = "nl" \/ (At(i) = "cr" /\ At(i + 1) = "nl")
@@ -182,7 +185,9 @@ CloseTag(p) == LET s == SkipBlanks(p + 3)  e == CloseName(s, s) IN
 
 \* which matcher of the cascade applies at p (the first one, in the order of Lexer.parse)
 Rule(p) == LET b == SkipBlanks(p) IN
-  IF p > N THEN "End"
+  IF p = 0 THEN "Transform"
+  ELSE IF p > N THEN "End"
+  ELSE IF p = 1 /\ txt[1] = "MAGIC" THEN "Coding"
   ELSE IF Starts(p, <<"dl", "lb">>) THEN "Expr"
   ELSE IF LineStart(p) /\ At(b) = "pc" /\ At(b + 1) # "pc" THEN "Control"
   ELSE IF LineStart(p) /\ Starts(b, <<"hs", "hs">>) THEN "LineComment"
@@ -219,24 +224,56 @@ Advance(r, e, nds, img, stk, ft) ==
   /\ nodes' = (IF Len(nds) = 0 THEN nodes ELSE IF Len(nds) = 1 THEN AddNode(nodes, nds[1]) ELSE AddNode(AddNode(nodes, nds[1]), nds[2]))
   /\ ostk' = Write(stk, img)
   /\ feat' = feat \cup ft
-  /\ UNCHANGED <<txt, err, fin>>
+  /\ UNCHANGED <<src, route, txt, err, fin>>
 Fail(why, p, l, definite, ft) ==
   /\ err' = [why |-> why, p |-> p, l |-> l, d |-> definite] /\ fin' = TRUE /\ feat' = feat \cup ft
-  /\ UNCHANGED <<txt, pos, line, nodes, segs, tags, ctl, ostk>>
+  /\ UNCHANGED <<src, route, txt, pos, line, nodes, segs, tags, ctl, ostk>>
 \* literal text [pos, e) written as it stands
 EmitText(r, e, ft) == Advance(r, e, <<Node("text", pos, line, Seg(pos, e - 1))>>, Seg(pos, e - 1), ostk, ft) /\ UNCHANGED <<tags, ctl>>
 
-LexInit(t) == /\ txt = t /\ pos = 1 /\ line = 1 /\ nodes = <<>> /\ segs = <<>> /\ err = NoErr /\ fin = FALSE
-              /\ tags = <<>> /\ ctl = <<>> /\ ostk = <<[k |-> "top", buf |-> <<>>]>> /\ feat = {}
+(***************************************************************************)
+(* Pre-lexing routes.  Before the cascade runs, Lexer.parse() decodes the   *)
+(* source (decode_raw_stream: bytes, BOM, magic comment, input_encoding --  *)
+(* none of which changes the characters) and hands it to the preprocessor   *)
+(* callables, in order.  The operations modelled:                          *)
+(*   id   returns the text unchanged          del  deletes the first symbol *)
+(*   ins  inserts a header line `##w<nl>` in front (LENGTHENS the text)     *)
+(*   exp  expands the shorthand `o` to `${w}` everywhere (lengthens)        *)
+(* The result is `txt`: the text the lexer must account for completely.    *)
+(***************************************************************************)
+RECURSIVE Expand(_)
+Expand(s) == IF s = <<>> THEN <<>>
+             ELSE (IF Head(s) = "o" THEN <<"dl", "lb", "w", "rb">> ELSE <<Head(s)>>) \o Expand(Tail(s))
+ApplyOp(op, s) == CASE op = "id" -> s
+                    [] op = "del" -> (IF s = <<>> THEN s ELSE Tail(s))
+                    [] op = "ins" -> <<"hs", "hs", "w", "nl">> \o s
+                    [] op = "exp" -> Expand(s)
+RECURSIVE ApplyRoute(_, _)
+ApplyRoute(r, s) == IF r = <<>> THEN s ELSE ApplyRoute(Tail(r), ApplyOp(Head(r), s))
+\* a source s that reaches the lexer through route r (pos = 0: not yet transformed)
+LexInitR(s, r) == /\ src = s /\ route = r /\ txt = s /\ pos = (IF r = <<>> THEN 1 ELSE 0)
+                  /\ line = 1 /\ nodes = <<>> /\ segs = <<>> /\ err = NoErr /\ fin = FALSE
+                  /\ tags = <<>> /\ ctl = <<>> /\ ostk = <<[k |-> "top", buf |-> <<>>]>> /\ feat = {}
+LexInit(t) == LexInitR(t, <<>>)
+\* the preprocessors run: from here on `txt` is fixed
+Transform ==
+  /\ ~fin /\ Rule(pos) = "Transform"
+  /\ txt' = ApplyRoute(route, src) /\ pos' = 1
+  /\ UNCHANGED <<src, route, line, nodes, segs, err, fin, tags, ctl, ostk, feat>>
 
 (***************************************************************************)
 (* The cascade                                                             *)
 (***************************************************************************)
+\* the magic encoding comment at the very start of the lexed text is stepped over (`self.match_reg(self._coding_re)`)
+MatchCoding ==
+  /\ ~fin /\ Rule(pos) = "Coding"
+  /\ Advance("Coding", 2, <<>>, <<>>, ostk, {"coding-comment"}) /\ UNCHANGED <<tags, ctl>>
+
 MatchEnd ==
   /\ ~fin /\ Rule(pos) = "End"
   /\ IF tags # <<>> THEN Fail("unclosed-tag", pos, line, FALSE, {})
      ELSE IF ctl # <<>> THEN Fail("unterminated-control", ctl[Len(ctl)].p, ctl[Len(ctl)].l, TRUE, {})
-     ELSE fin' = TRUE /\ UNCHANGED <<txt, pos, line, nodes, segs, err, tags, ctl, ostk, feat>>
+     ELSE fin' = TRUE /\ UNCHANGED <<src, route, txt, pos, line, nodes, segs, err, tags, ctl, ostk, feat>>
 
 MatchExpression ==
   /\ ~fin /\ Rule(pos) = "Expr"
@@ -355,14 +392,14 @@ MatchText ==
         /\ LET e == Skip(q + 2, {"pc"})  img == Seg(pos, q - 1) \o Seg(q + 1, e - 1) IN
            Advance("Percent", e, <<Node("text", pos, line, img)>>, img, ostk, {"cr-before-percent"}) /\ UNCHANGED <<tags, ctl>>
 
-LexNext == \/ MatchEnd \/ MatchExpression \/ MatchControlLine \/ MatchLineComment \/ MatchDocComment
+LexNext == \/ Transform \/ MatchCoding \/ MatchEnd \/ MatchExpression \/ MatchControlLine \/ MatchLineComment \/ MatchDocComment
            \/ MatchTagStart \/ MatchTagEnd \/ MatchPythonBlock \/ MatchPercent \/ MatchContinuation \/ MatchText
 
 (***************************************************************************)
 (* The property                                                            *)
 (***************************************************************************)
 \* the iterations tile the consumed prefix: nothing dropped, nothing duplicated, in order
-Tiles == /\ (segs = <<>> => pos = 1)
+Tiles == /\ (segs = <<>> => pos <= 1)
          /\ \A i \in 1..Len(segs) : segs[i].e > segs[i].p /\ segs[i].p = (IF i = 1 THEN 1 ELSE segs[i - 1].e)
          /\ (segs # <<>> => segs[Len(segs)].e = pos)
 \* the literal image of every iteration is the documented image of its span
@@ -386,7 +423,7 @@ Accounting == Tiles /\ Images /\ NodeLines /\ NormalForm /\ Output /\ line = 1 +
 \* the same, stated on the last iteration / last node only (what changed in this step): used on long
 \* documents, where re-checking every earlier iteration in every state would be quadratic
 AccountingInc ==
-  /\ (segs = <<>> => pos = 1)
+  /\ (segs = <<>> => pos <= 1)
   /\ (segs # <<>> => LET n == Len(segs)  s == segs[n] IN
                       /\ s.e > s.p /\ s.e = pos /\ s.p = (IF n = 1 THEN 1 ELSE segs[n - 1].e) /\ ImageOK(s))
   /\ (nodes # <<>> => LET n == Len(nodes)  d == nodes[n] IN
